@@ -5,6 +5,7 @@
 -/
 import PjVerif.Lemmas.SchedC09
 import PjVerif.Props.Witness
+import PjVerif.Lemmas.ScheduleSrc
 namespace Pj
 
 /-- no task ends after the requested project end -/
@@ -41,5 +42,28 @@ theorem C09_full_fails :
   cases hb : backwardCalc Witness.kfS2C09Env Witness.kfS2C09F0 Witness.kfS2C09Res with
   | error e => rw [hb] at hev; cases hev
   | ok o => rw [hb] at hev; exact ⟨o, rfl, by simpa using hev⟩
+
+/-! ### the tie of the inner loops to the current source, by translation
+
+`tools/extract_schedule.py` translates, on every run, `_ResourceUsage.reserved / reserve / __get_key` and the methods
+`__get_resource_nearest_available_date` / `__shift_by_resource_usage_and_calendar` of both schedulers (schedule.py) into
+PyLite terms (Extracted/ScheduleSrc.lean); calls that leave a method run the translated source of the callee (the ledger
+methods, resource.py, calendar.py).  The theorems say that running the translated source on a ledger is the model's
+function - with the model's `used` being what `reserved` returns on that ledger for the scheduler's balance setting - and
+that the ledger afterwards is the old one plus the model's rows.  A semantic edit of those methods breaks these proofs. -/
+
+/-- backward `__get_resource_nearest_available_date` as translated = the model's `nearestBwd` -/
+theorem C09_source_nearest_backward (cal : Cal) (b : Bool) (rows : List Row) (r : Option Nat) (t : Uid) (start : Time) :
+    SchedSrc.interpNearestBwd cal b (SchedSrc.resRef r) t (rows.map SchedSrc.encRow) start =
+      (nearestBwd cal (SchedSrc.usedOf rows r t b) start).map (fun e => (e, rows.map SchedSrc.encRow)) :=
+  SchedSrc.interpNearestBwd_eq cal b rows r t start
+
+/-- backward `__shift_by_resource_usage_and_calendar` as translated = the model's `shiftBwd` -/
+theorem C09_source_shift_backward (fuel : Nat) (cal : Cal) (b : Bool) (rows : List Row) (r : Option Nat) (t : Uid)
+    (end_ : Time) (left : Rat) (hf : Extracted.bwdShiftMaxSteps < fuel) :
+    SchedSrc.interpShiftBwd fuel cal b (SchedSrc.resRef r) t (rows.map SchedSrc.encRow) end_ left =
+      (shiftBwd cal (SchedSrc.usedOf rows r t b) end_ left).map
+        (fun p => (p.1, (rows ++ p.2.map (mkRow r t)).map SchedSrc.encRow)) :=
+  SchedSrc.interpShiftBwd_eq fuel cal b rows r t end_ left hf
 
 end Pj
